@@ -8,12 +8,13 @@ is 0 again — returns every element that is present during the whole iteration"
 arithmetic this is `scan_complete`: for every key list, every `COUNT ≥ 1` (below `usize::MAX`) the
 full iteration terminates and returns exactly the (sorted, matching) keys, each once.
 
-The full statement for EVERY count the parsers let through is false (`scan_count_zero_counterexample`,
-`scan_count_max_traps`, `scan_count_max_wrapped_counterexample`): `COUNT 0` answers an empty page with
-the cursor unchanged — from cursor 0 that reads "iteration complete, no keys" — and `COUNT -1` is cast to
-`usize::MAX`, whose `count + 1` traps in an overflow-checked build and wraps to `take(0)` in the release
-profile (same empty answer).  Redis refuses `COUNT < 1` with a syntax error.  Known finding
-`C01:scan-count-nonpositive-accepted`.
+The full statement for EVERY count a `Command::Scan` can carry is false (`scan_count_zero_counterexample`):
+`count = 0` answers an empty page with the cursor unchanged — from cursor 0 that reads "iteration
+complete, no keys".  Until the fix 60ffe53 both parsers let `COUNT 0` and `COUNT -1` (= `usize::MAX`, whose
+`count + 1` trapped / wrapped) through: finding `C01:scan-count-nonpositive-accepted`, repaired — the
+parsers refuse `COUNT < 1` with a syntax error as Redis does (the witnesses stay in `scan_pass`: a
+parser that accepts them again is a VIOLATION), and the executor takes `count.saturating_add(1)`
+(`scan_count_max_complete`).
 -/
 namespace RedisVerif.C01Scan
 open RedisVerif RedisVerif.Executor
@@ -22,7 +23,7 @@ open RedisVerif RedisVerif.Executor
 def C01_scan_complete : Prop :=
   ∀ (keys : List Nat) (count : Nat), ∃ fuel, scanAll keys count fuel 0 = some keys
 
-theorem scanAll_drop {α : Type} (keys : List α) (count : Nat) (h1 : 1 ≤ count) (h2 : count + 1 < two64) :
+theorem scanAll_drop {α : Type} (keys : List α) (count : Nat) (h1 : 1 ≤ count) (hk : keys.length < two64 - 1) :
     ∀ (fuel cursor : Nat), keys.length - cursor < fuel →
       scanAll keys count fuel cursor = some (keys.drop cursor) := by
   intro fuel
@@ -30,11 +31,12 @@ theorem scanAll_drop {α : Type} (keys : List α) (count : Nat) (h1 : 1 ≤ coun
   | zero => intro cursor h; omega
   | succ fuel ih =>
     intro cursor hf
-    simp only [scanAll, scanPage, h2, if_true]
-    have hlen : ((keys.drop cursor).take (count + 1)).length = min (count + 1) (keys.length - cursor) := by
+    simp only [scanAll, scanPage]
+    have hlen : ((keys.drop cursor).take (min (count + 1) (two64 - 1))).length =
+        min (min (count + 1) (two64 - 1)) (keys.length - cursor) := by
       simp [List.length_take, List.length_drop]
     by_cases hbig : keys.length - cursor ≥ count + 1
-    · have hgt : ((keys.drop cursor).take (count + 1)).length > count := by rw [hlen]; omega
+    · have hgt : ((keys.drop cursor).take (min (count + 1) (two64 - 1))).length > count := by rw [hlen]; omega
       simp only [hgt, if_true]
       have hne : ¬ (cursor + count = 0) := by omega
       simp only [hne, if_false]
@@ -43,17 +45,17 @@ theorem scanAll_drop {α : Type} (keys : List α) (count : Nat) (h1 : 1 ≤ coun
       congr 1
       rw [List.take_take, Nat.min_eq_left (by omega), ← List.drop_drop]
       exact List.take_append_drop count (keys.drop cursor)
-    · have hle : ¬ ((keys.drop cursor).take (count + 1)).length > count := by rw [hlen]; omega
+    · have hle : ¬ ((keys.drop cursor).take (min (count + 1) (two64 - 1))).length > count := by rw [hlen]; omega
       simp only [hle, if_false, if_true]
       congr 1
       apply List.take_of_length_le
       simp [List.length_drop]; omega
 
-/-- **SCAN is complete for every `COUNT ≥ 1`** (below `usize::MAX`): the full iteration terminates
-    after at most `len + 1` calls and returns exactly the key list, in order, each key once. -/
-theorem scan_complete_partial (keys : List Nat) (count : Nat) (h1 : 1 ≤ count) (h2 : count + 1 < two64) :
+/-- **SCAN is complete for every `COUNT ≥ 1`** (any `usize`): the full iteration terminates after at most
+    `len + 1` calls and returns exactly the key list, in order, each key once. -/
+theorem scan_complete_partial (keys : List Nat) (count : Nat) (h1 : 1 ≤ count) (hk : keys.length < two64 - 1) :
     scanAll keys count (keys.length + 1) 0 = some keys := by
-  have := scanAll_drop keys count h1 h2 (keys.length + 1) 0 (by omega)
+  have := scanAll_drop keys count h1 hk (keys.length + 1) 0 (by omega)
   simpa using this
 
 /-- every page holds at most `count` keys and a non-zero cursor comes with a full page -/
@@ -62,15 +64,13 @@ theorem scan_page_bounds {α : Type} (keys : List α) (cursor count next : Nat) 
     page.length ≤ count + 1 ∧ (next ≠ 0 → page.length = count ∧ next = cursor + count) := by
   unfold scanPage at h
   split at h
-  · split at h
-    · rename_i hgt
-      cases h
-      refine ⟨by simp [List.length_take]; omega, fun _ => ⟨?_, rfl⟩⟩
-      simp only [List.length_take] at hgt ⊢
-      omega
-    · cases h
-      exact ⟨by simp [List.length_take]; omega, fun hne => absurd rfl hne⟩
+  · rename_i hgt
+    cases h
+    refine ⟨by simp [List.length_take]; omega, fun _ => ⟨?_, rfl⟩⟩
+    simp only [List.length_take] at hgt ⊢
+    omega
   · cases h
+    exact ⟨by simp [List.length_take]; omega, fun hne => absurd rfl hne⟩
 
 /-- `SCAN 0 COUNT 0` on a non-empty keyspace: cursor 0, no keys — "nothing to iterate" -/
 theorem scan_count_zero_counterexample : scanAll [7] 0 5 0 = some [] := by decide
@@ -79,15 +79,8 @@ theorem scan_count_zero_counterexample : scanAll [7] 0 5 0 = some [] := by decid
 theorem scan_count_zero_never_advances : scanAll [7, 8, 9] 0 5 1 = none ∧
     scanPage [7, 8, 9] 1 0 = some (1, []) := by decide
 
-/-- `COUNT -1` = `usize::MAX`: `count + 1` traps in an overflow-checked build … -/
-theorem scan_count_max_traps (keys : List Nat) (cursor : Nat) :
-    scanPage keys cursor (two64 - 1) = none := by
-  unfold scanPage
-  have : ¬ (two64 - 1 + 1 < two64) := by unfold two64; omega
-  rw [if_neg this]
-
-/-- … and in the release profile (`count + 1` wraps to 0) the answer is the empty page with cursor 0 -/
-theorem scan_count_max_wrapped_counterexample : scanPageWrapped [7] 0 = (0, []) := rfl
+/-- `count = usize::MAX` (what `COUNT -1` used to become) is now an ordinary count: one page with everything -/
+theorem scan_count_max_complete : scanAll [7, 8, 9] (two64 - 1) 2 0 = some [7, 8, 9] := by decide
 
 theorem C01_scan_complete_counterexample : ¬ C01_scan_complete := by
   intro h
